@@ -10,6 +10,7 @@ CONSTANTS
   History = TRUE
   DoEmit = TRUE
   Bug = "none"
+  Hist = 0
   Shape = "any"
 INVARIANT TypeOK
 INVARIANT InComp
